@@ -288,6 +288,8 @@ def step (st : St) (line : String) : St × String :=
     | "wwritev" :: w :: ds => ["wwrite", w, "x" ++ String.join (ds.map (fun (d : String) => (d.drop 1).toString))]
     -- reading to the end into a vector that already holds something returns the same bytes
     | ["rreadall", rid, _] => ["rreadall", rid]
+    -- read_exact of N bytes that are there is one read of N bytes
+    | ["rreadexact", rid, n] => ["rread", rid, n]
     | ["wcreate", f, c, w, k, a] => ["wopen", f, c, w, k, "algo=" ++ a, "size=-", "sri=-", "time=-", "meta=-", "raw=-"]
     -- a target named relative to another working directory is the file <dir>/<rel> below the scratch root
     | ["link_to_cd", f, c, k, rel, dir] => ["link_to", f, c, k, "rel:" ++ dir ++ "/" ++ rel]
